@@ -442,6 +442,15 @@ func (e *Engine) specBuiltin(env *Env, name string, ex *SExpr) (Val, bool) {
 			env.st.elemsDone = nd
 		}
 		return Val{S: fmt.Sprintf("(%s %s %s %s)", fn, rn, off, n.S), T: &ghostMapType{key: slt.Elem(), elem: tBool}}, true
+	case "wraps":
+		// wraps(i, v): the interface value i holds exactly the value v (same dynamic type, same payload)
+		i, v := arg(0), arg(1)
+		if _, ok := i.T.Underlying().(*types.Interface); !ok || env.st == nil {
+			env.errf("wraps() needs an interface value and a concrete value: %s", ex)
+			return Val{}, false
+		}
+		w := e.makeInterface(env.st, v, i.T)
+		return Val{S: eq(i.S, w.S), T: tBool}, true
 	case "allocated":
 		// allocated(x): the reference (or the backing array of the slice) x lies below the current allocation frontier;
 		// true of every reference a program can hold, useful as an explicit loop invariant for values kept in fields
